@@ -11,4 +11,18 @@ package xrep
 //@   lock Mutex level 20
 //@   guarded_by Mutex: closed sizeQ recvQ pipes recvExpire sendExpire sendQLen recvQLen bestEffort ttl
 //@   immutable: closeQ
+//@   invariant 1 <= ttl && ttl <= 255
+//@   invariant sendQLen >= 0
 //@
+//@ func (*pipe).receiver
+//@   ghost body0 = result.Body at call:RecvMsg#1
+//@   loop 2 invariant hops >= 1 && hops - 1 <= ttl
+//@   loop 2 invariant m.Body == body0[4*(hops-1):]
+//@   loop 2 invariant same_elems(body0)
+//@   loop 2 invariant 4*(hops-1) <= len(body0)
+//@   loop 2 invariant arrof(m.Header) != arrof(body0)
+//@   loop 2 invariant !finish ==> forall(j, 0, hops-1, body0[4*j] < 128)
+//@   loop 2 invariant finish ==> hops >= 2 && body0[4*(hops-2)] >= 128 && forall(j, 0, hops-2, body0[4*j] < 128)
+//@   at select#1 assert selidx == 0 ==> hops >= 2 && hops-1 <= ttl && 4*(hops-1) <= len(body0) && body0[4*(hops-2)] >= 128 && forall(j, 0, hops-2, body0[4*j] < 128)
+//@   at call:Free#1 assert forall(j, 0, hops-1, body0[4*j] < 128) && hops-1 >= ttl
+//@   at call:Free#2 assert forall(j, 0, hops-2, body0[4*j] < 128) && len(body0) < 4*(hops-1)
